@@ -729,36 +729,37 @@ ALL = ("re", "str", "in", "cmp")
 RS = ("re", "str")
 RSI = ("re", "str", "in")
 
-# (lean name, source file, class or None, entry function, kinds, functions never entered)
+# (lean name, source file, class or None, entry function, kinds, functions never entered, properties whose
+#  `regexes_as_modelled` states it — shown in front of a translator PROBLEM so that it can be attributed)
 ENTRIES = [
     # C11
-    ("rxIPv4ObjInit", "ccp_util.py", "IPv4Obj", "__init__", RS, ()),
-    ("rxIPv6ObjInit", "ccp_util.py", "IPv6Obj", "__init__", RS, ()),
+    ("rxIPv4ObjInit", "ccp_util.py", "IPv4Obj", "__init__", RS, (), "C11"),
+    ("rxIPv6ObjInit", "ccp_util.py", "IPv6Obj", "__init__", RS, (), "C11"),
     # C15 (and, through Ccp.Model.Intf, C19)
-    ("rxIntfParse", "ccp_util.py", "CiscoIOSInterface", "parse_single_interface", RSI, ()),
-    ("rxRangeInterfaces", "ccp_util.py", "CiscoRange", "__init__", RSI, ("parse_integers", "parse_floats")),
+    ("rxIntfParse", "ccp_util.py", "CiscoIOSInterface", "parse_single_interface", RSI, (), "C15,C19"),
+    ("rxRangeInterfaces", "ccp_util.py", "CiscoRange", "__init__", RSI, ("parse_integers", "parse_floats"), "C15"),
     # C14 (and, through Ccp.Model.Range, C19)
-    ("rxRangeIntegers", "ccp_util.py", "CiscoRange", "__init__", RSI, ("parse_cisco_interfaces", "parse_strings", "parse_floats")),
+    ("rxRangeIntegers", "ccp_util.py", "CiscoRange", "__init__", RSI, ("parse_cisco_interfaces", "parse_strings", "parse_floats"), "C14,C19"),
     # C20
-    ("rxAsaNames", "ciscoconfparse2.py", "ConfigList", "asa_object_group_names", ALL, ()),
-    ("rxAsaObjNet", "ciscoconfparse2.py", "ConfigList", "asa_object_group_network", ALL, ()),
-    ("rxAsaAcl", "ciscoconfparse2.py", "ConfigList", "asa_access_list", ALL, ()),
-    ("rxAsaGroupInit", "models_asa.py", "ASAObjGroupNetwork", "__init__", ALL, ()),
-    ("rxAsaGroupIsObjectFor", "models_asa.py", "ASAObjGroupNetwork", "is_object_for", ALL, ()),
-    ("rxAsaGroupNetworkStrings", "models_asa.py", "ASAObjGroupNetwork", "network_strings", ALL, ()),
-    ("rxAsaNameInit", "models_asa.py", "ASAName", "__init__", ALL, ()),
-    ("rxAsaNameIsObjectFor", "models_asa.py", "ASAName", "is_object_for", ALL, ()),
-    ("rxL4ObjectInit", "ccp_util.py", "L4Object", "__init__", ALL, ()),
+    ("rxAsaNames", "ciscoconfparse2.py", "ConfigList", "asa_object_group_names", ALL, (), "C20"),
+    ("rxAsaObjNet", "ciscoconfparse2.py", "ConfigList", "asa_object_group_network", ALL, (), "C20"),
+    ("rxAsaAcl", "ciscoconfparse2.py", "ConfigList", "asa_access_list", ALL, (), "C20"),
+    ("rxAsaGroupInit", "models_asa.py", "ASAObjGroupNetwork", "__init__", ALL, (), "C20"),
+    ("rxAsaGroupIsObjectFor", "models_asa.py", "ASAObjGroupNetwork", "is_object_for", ALL, (), "C20"),
+    ("rxAsaGroupNetworkStrings", "models_asa.py", "ASAObjGroupNetwork", "network_strings", ALL, (), "C20"),
+    ("rxAsaNameInit", "models_asa.py", "ASAName", "__init__", ALL, (), "C20"),
+    ("rxAsaNameIsObjectFor", "models_asa.py", "ASAName", "is_object_for", ALL, (), "C20"),
+    ("rxL4ObjectInit", "ccp_util.py", "L4Object", "__init__", ALL, (), "C20"),
     # C18
-    ("rxCliIpgrep", "cli_script.py", "CliApplication", "ipgrep_command", RSI, ()),
-    ("rxCliMacgrep", "cli_script.py", "CliApplication", "macgrep_command", RSI, ()),
-    ("rxCliMacSearch", "cli_script.py", "MACEUISearch", "search_all_formats", RSI, ()),
+    ("rxCliIpgrep", "cli_script.py", "CliApplication", "ipgrep_command", RSI, (), "C18"),
+    ("rxCliMacgrep", "cli_script.py", "CliApplication", "macgrep_command", RSI, (), "C18"),
+    ("rxCliMacSearch", "cli_script.py", "MACEUISearch", "search_all_formats", RSI, (), "C18"),
     # C04
-    ("rxSpaceTolerant", "ciscoconfparse2.py", None, "build_space_tolerant_regex", RS, ()),
-    ("rxEscapeLinespec", "ciscoconfparse2.py", None, "escape_linespec", RS, ()),
-    ("rxFindLineObj", "ciscoconfparse2.py", "CiscoConfParse", "_find_line_OBJ", RS, ()),
+    ("rxSpaceTolerant", "ciscoconfparse2.py", None, "build_space_tolerant_regex", RS, (), "C04"),
+    ("rxEscapeLinespec", "ciscoconfparse2.py", None, "escape_linespec", RS, (), "C04"),
+    ("rxFindLineObj", "ciscoconfparse2.py", "CiscoConfParse", "_find_line_OBJ", RS, (), "C04"),
     # C08
-    ("rxBraceUnpack", "ciscoconfparse2.py", "BraceParse", "unpack_nested_list_to_config_objs", ALL, ()),
+    ("rxBraceUnpack", "ciscoconfparse2.py", "BraceParse", "unpack_nested_list_to_config_objs", ALL, (), "C08"),
 ]
 
 # C19: the accessors of models_cisco.py that Ccp.Model.IosModels models, looked up from the concrete classes
@@ -787,7 +788,8 @@ def ios_lean_name(cls, accessor):
 
 def emit_all(src, emit, lean_str):
     """called by translate.tables(): `src.tree(fn)` gives the AST of a source file, `emit(name, thunk)` records a block
-    (an exception raised by the thunk becomes a translator PROBLEM)"""
+    (an exception raised by the thunk becomes a translator PROBLEM; the block name starts with the ids of the properties
+    whose `regexes_as_modelled` needs the block)"""
     loader = src.tree
 
     def closure(fn, cls, func, kinds, stop):
@@ -815,12 +817,12 @@ def emit_all(src, emit, lean_str):
             return text, len(items)
         return go
 
-    for lean, fn, cls, func, kinds, stop in ENTRIES:
-        emit(lean, t_scan(lean, fn, cls, func, kinds, stop, ""))
+    for lean, fn, cls, func, kinds, stop, props in ENTRIES:
+        emit(f"[{props}] {lean}", t_scan(lean, fn, cls, func, kinds, stop, ""))
     for cls, accs in IOS_ACCESSORS:
         for a in accs:
             lean = ios_lean_name(cls, a)
-            emit(lean, t_scan(lean, "models_cisco.py", cls, a, ALL, (), "C19: "))
+            emit(f"[C19] {lean}", t_scan(lean, "models_cisco.py", cls, a, ALL, (), "C19: "))
 
     def t_cli_defaults():
         tree = src.tree("cli_script.py")
@@ -845,7 +847,7 @@ def emit_all(src, emit, lean_str):
                 f"def rxCliArgDefaults : List (String × String) :=\n  {lean_pairs(sorted(set(rows)), lean_str)}\n"
                 f"def rxCliGetattrDefaults : List (String × String) :=\n  {lean_pairs(sorted(set(g)), lean_str)}\n"), \
             {"options": len(rows), "getattr": len(g)}
-    emit("rxCliDefaults", t_cli_defaults)
+    emit("[C18] rxCliDefaults", t_cli_defaults)
 
     def t_brace():
         tree = src.tree("ciscoconfparse2.py")
@@ -903,4 +905,4 @@ def emit_all(src, emit, lean_str):
                 f"def ppNestedExprIgnoreDefault : String := {lean_str(ig_default)}\n"
                 f"def ppParseAllDefault : String := {lean_str(repr(pa.default) if pa is not None else 'absent')}\n"), \
             {"pyparsing": pp.__version__, "calls": len(rows)}
-    emit("rxBrace", t_brace)
+    emit("[C08] rxBrace", t_brace)
